@@ -1,5 +1,7 @@
 import E3fpVerif.Model.Db
 import E3fpVerif.Gen.DbIO
+import E3fpVerif.Lemmas.DbCast
+import E3fpVerif.Props.C05
 /-!
 # C08 — saving and loading a database is lossless
 -/
@@ -28,5 +30,141 @@ theorem pickle_rt (db : Db) (h : db.namesMap = updateNamesMap [] db.fpNames 0) :
 
 theorem pickle_idem (db : Db) : db.pickleRoundTrip.pickleRoundTrip = db.pickleRoundTrip := by
   simp [Db.pickleRoundTrip]
+
+/-! ## `savez` / `load` -/
+
+/-- the save/load cycle is the identity on a database whose stored values are values of its dtype,
+whose name index is the canonical one, whose property keys are duplicate free and whose columns
+are as long as the name list (the general form; `savezLoad_id` states it under `Db.Inv`) -/
+theorem savezLoad_id_gen (db : Db) (a : List Row) (ha : db.array = some a)
+    (hcast : ∀ r ∈ a, ∀ p ∈ r, castVal db.fpType p.2 = p.2)
+    (hidx : db.namesMap = updateNamesMap [] db.fpNames 0)
+    (hnd : (db.props.map Prod.fst).Nodup)
+    (hlen : ∀ c ∈ db.props, c.2.length = db.fpNames.length) : db.savezLoad = .ok db := by
+  unfold Db.savezLoad
+  rw [ha]
+  simp only
+  rw [fromArray_ok a db.bits db.fpNames db.fpType db.level db.name db.props hlen]
+  simp only
+  have harr : a.map (fun r => r.map (fun p => (p.1, castVal db.fpType p.2))) = a := by
+    conv => rhs; rw [← List.map_id a]
+    apply List.map_congr_left
+    intro r hr
+    conv => rhs; rw [id, ← List.map_id r]
+    apply List.map_congr_left
+    intro p hp
+    rw [hcast r hr p hp]; rfl
+  rw [harr, foldl_colSet_insert db.props hnd, ← hidx, ← ha]
+
+/-- **saving and loading a database is lossless** -/
+theorem savezLoad_id (db : Db) (a : List Row) (hi : db.Inv) (ha : db.array = some a)
+    (hcast : ∀ r ∈ a, ∀ p ∈ r, castVal db.fpType p.2 = p.2) : db.savezLoad = .ok db := by
+  obtain ⟨h1, h2, h3, h4, _⟩ := (C05.inv_some ha).1 hi
+  exact savezLoad_id_gen db a ha hcast h3 h4 (fun c hc => by rw [h2 c hc, h1])
+
+/-- what `load(savez(db))` is when it succeeds: the rows cast to the dtype, the index rebuilt, the
+columns re-inserted -/
+theorem savezLoad_ok (db d : Db) (h : db.savezLoad = .ok d) :
+    ∃ a, db.array = some a ∧ (∀ c ∈ db.props, c.2.length = db.fpNames.length) ∧
+      d = { db with array := some (a.map (fun r => r.map (fun p => (p.1, castVal db.fpType p.2)))),
+                    namesMap := updateNamesMap [] db.fpNames 0,
+                    props := db.props.foldl (fun acc c => colSet acc c.1 c.2) [] } := by
+  unfold Db.savezLoad at h
+  split at h
+  · cases h
+  · rename_i a ha
+    split at h
+    · rename_i d' heq
+      cases h
+      have hc := (fromArray_ok_iff a db.bits db.fpNames db.fpType db.level db.name db.props).1 (by rw [heq])
+      rw [fromArray_ok _ _ _ _ _ _ _ hc] at heq
+      exact ⟨a, ha, hc, (Prod.mk.inj heq).1.symm⟩
+    · cases h
+
+/-- a second save/load cycle changes nothing (no hypothesis on `db`) -/
+theorem savezLoad_idem (db d : Db) (h : db.savezLoad = .ok d) : d.savezLoad = .ok d := by
+  obtain ⟨a, ha, hc, rfl⟩ := savezLoad_ok db d h
+  have hp := foldl_colSet_pairs_forall (fun v => v.length = db.fpNames.length) db.props hc [] (by simp) (by simp)
+  refine savezLoad_id_gen _ _ rfl ?_ rfl hp.1 hp.2
+  intro r hr p hp'
+  obtain ⟨r0, _, rfl⟩ := List.mem_map.1 hr
+  obtain ⟨p0, _, rfl⟩ := List.mem_map.1 hp'
+  exact castVal_idem _ _
+
+/-- the loaded database satisfies the invariant whenever the saved one had as many names as rows
+and no columns on an empty matrix — in particular whenever the saved one satisfied it -/
+theorem savezLoad_inv (db d : Db) (hi : db.Inv) (h : db.savezLoad = .ok d) : d.Inv := by
+  unfold Db.savezLoad at h
+  split at h
+  · cases h
+  · rename_i a ha
+    obtain ⟨h1, _, _, _, h5⟩ := (C05.inv_some ha).1 hi
+    split at h
+    · rename_i d' heq
+      cases h
+      exact C05.fromArray_inv' heq h1 h5
+    · cases h
+
+/-- saving never fails on a non-empty database satisfying the invariant; what may change is only
+the stored values (cast to the dtype) -/
+theorem savezLoad_succeeds (db : Db) (a : List Row) (hi : db.Inv) (ha : db.array = some a) :
+    ∃ d, db.savezLoad = .ok d ∧ d.fpNames = db.fpNames ∧ d.namesMap = db.namesMap ∧ d.props = db.props ∧
+      d.array = some (a.map (fun r => r.map (fun p => (p.1, castVal db.fpType p.2)))) := by
+  obtain ⟨h1, h2, h3, h4, _⟩ := (C05.inv_some ha).1 hi
+  have hlen : ∀ c ∈ db.props, c.2.length = db.fpNames.length := fun c hc => by rw [h2 c hc, h1]
+  have e : db.savezLoad = .ok (Db.fromArray a db.bits db.fpNames db.fpType db.level db.name db.props).1 := by
+    unfold Db.savezLoad
+    rw [ha]
+    simp only
+    rw [fromArray_ok a db.bits db.fpNames db.fpType db.level db.name db.props hlen]
+  rw [fromArray_ok a db.bits db.fpNames db.fpType db.level db.name db.props hlen] at e
+  exact ⟨_, e, rfl, h3.symm, foldl_colSet_insert db.props h4, rfl⟩
+
+/-! ## pickling and the invariant -/
+
+/-- the unpickled database has the canonical index, whatever the index of the pickled one was -/
+theorem pickle_index (db : Db) :
+    db.pickleRoundTrip.namesMap = updateNamesMap [] db.pickleRoundTrip.fpNames 0 := rfl
+
+/-- under the invariant pickling is the identity, and so preserves the invariant -/
+theorem pickle_inv (db : Db) (h : db.Inv) : db.pickleRoundTrip = db ∧ db.pickleRoundTrip.Inv := by
+  have e := pickle_rt db h.canonical
+  exact ⟨e, by rw [e]; exact h⟩
+
+/-- pickling repairs a damaged index: whatever is put in place of the index of a database
+satisfying the invariant, unpickling gives the database back -/
+theorem pickle_repairs (db : Db) (m : List (Option String × List Nat)) (h : db.Inv) :
+    ({ db with namesMap := m } : Db).pickleRoundTrip = db := by
+  have e := h.canonical
+  cases db
+  simp_all [Db.pickleRoundTrip]
+
+/-! ## non-vacuity -/
+
+section Examples
+
+private def f1 : Fp := ⟨.bit, 8, 0, [1, 2], []⟩
+private def f2 : Fp := ⟨.bit, 8, 0, [3], []⟩
+private def db1 : Db :=
+  (Db.new .bit 0 (some "x")).addOk [⟨f1, some "a", [("w", .int 1)]⟩, ⟨f2, some "a", [("w", .int 2)]⟩]
+
+private theorem db1_inv : db1.Inv := C05.inv_addOk _ _ (C05.inv_new _ _ _)
+
+/-- `savezLoad_id`, `savezLoad_idem`, `pickle_inv`: the hypotheses hold of a two-row bit database
+with a repeated name and a property column -/
+example : db1.savezLoad = .ok db1 ∧ db1.pickleRoundTrip = db1 ∧ db1.fpNum = 2 :=
+  ⟨savezLoad_id db1 _ db1_inv rfl (by decide), (pickle_inv db1 db1_inv).1, by decide⟩
+
+example : ∃ d, db1.savezLoad = .ok d ∧ d.savezLoad = .ok d :=
+  ⟨db1, savezLoad_id db1 _ db1_inv rfl (by decide),
+    savezLoad_idem db1 db1 (savezLoad_id db1 _ db1_inv rfl (by decide))⟩
+
+/-- the dtype hypothesis of `savezLoad_id` cannot be dropped: a bit database holding a stored 2
+(`from_array` accepts it, `add` never produces it) is loaded with a 1 in its place -/
+theorem savezLoad_casts :
+    let db : Db := { db1 with array := some [[(1, 2)], [(3, 1)]] }
+    (db.savezLoad.toOption.map (·.array)) = some (some [[(1, 1)], [(3, 1)]]) := by decide
+
+end Examples
 
 end E3fpVerif.Props.C08
